@@ -883,19 +883,15 @@ fn base_text(r: &Req) -> String {
     save_text(&s).expect("save")
 }
 
-fn run_fault(r: &Req) -> String {
-    // mutations that can make the loader allocate without bound run in a child process
-    // (an allocation failure aborts, it cannot be caught)
-    if r.str("kind").starts_with("huge") && !std::env::args().any(|a| a == "--one") {
-        let mut line = r.chan.clone();
-        for (k, v) in &r.kv {
-            line.push_str(&format!(" {}={}", k, v));
-        }
-        return run_isolated(&line, 20.0, 4096);
-    }
+/// text appended after a complete record (kind `append`): a loader that stops reading at the end of
+/// the first JSON value would accept all but the whitespace ones wrongly
+const SUFFIXES: &[&str] = &["x", "{}", "[]", "0", ",", "}", "\"a\"", "null", " \n\t", "\n", " {\"P\":1}", "\u{0}", "@RECORD@"];
+
+/// the corrupted file of a `json.fault` request
+fn fault_bytes(r: &Req) -> Option<Vec<u8>> {
     let text = base_text(r);
     let kind = r.str("kind");
-    let bytes: Vec<u8> = match kind {
+    Some(match kind {
         "trunc" => text.as_bytes()[..r.u("pos").min(text.len())].to_vec(),
         "delbyte" => {
             let mut b = text.as_bytes().to_vec();
@@ -913,10 +909,30 @@ fn run_fault(r: &Req) -> String {
             }
             b
         }
-        k => match mutate(&text, k, r.u("pos")) {
-            Some(t) => t.into_bytes(),
-            None => return "not-applicable".into(),
-        },
+        "append" => {
+            let sfx = SUFFIXES[r.u("pos") % SUFFIXES.len()];
+            // "@RECORD@": the record once more (two saves through one file handle)
+            let sfx = if sfx == "@RECORD@" { text.clone() } else { sfx.to_string() };
+            format!("{}{}", text, sfx).into_bytes()
+        }
+        k => mutate(&text, k, r.u("pos"))?.into_bytes(),
+    })
+}
+
+fn run_fault(r: &Req) -> String {
+    // mutations that can make the loader allocate without bound run in a child process
+    // (an allocation failure aborts, it cannot be caught)
+    if r.str("kind").starts_with("huge") && !std::env::args().any(|a| a == "--one") {
+        let mut line = r.chan.clone();
+        for (k, v) in &r.kv {
+            line.push_str(&format!(" {}={}", k, v));
+        }
+        return run_isolated(&line, 20.0, 4096);
+    }
+    let kind = r.str("kind");
+    let bytes = match fault_bytes(r) {
+        Some(b) => b,
+        None => return "not-applicable".into(),
     };
     if std::env::var("C19_DEBUG").is_ok() {
         eprintln!("fault kind={} pos={} text={}", kind, r.u("pos"), String::from_utf8_lossy(&bytes).chars().take(3000).collect::<String>());
@@ -942,7 +958,7 @@ fn run_fault(r: &Req) -> String {
 /// JSON pointer of the site a token-level mutation request addresses (None for byte-level kinds)
 fn fault_site(r: &Req) -> Option<String> {
     let kind = r.str("kind");
-    if kind == "trunc" || kind == "delbyte" || kind == "flipbyte" {
+    if kind == "trunc" || kind == "delbyte" || kind == "flipbyte" || kind == "append" {
         return None;
     }
     let v: Value = serde_json::from_str(&base_text(r)).ok()?;
@@ -978,6 +994,18 @@ fn oracle_fault(r: &Req, out: &str) -> Result<(), String> {
             "{}: load_from_file did not return Err on a corrupted file (mutation {} at {}): {}",
             tag, r.str("kind"), site, out
         ));
+    }
+    // a file that is not ONE well-formed JSON document (independent strict parse of the whole
+    // byte string, trailing bytes included) must be refused
+    if out.starts_with("solver") {
+        if let Some(bytes) = fault_bytes(r) {
+            if serde_json::from_slice::<Value>(&bytes).is_err() {
+                return Err(format!(
+                    "load_from_file accepted a file that is not a well-formed JSON document (mutation {} pos {}): {}",
+                    r.str("kind"), r.u("pos"), out
+                ));
+            }
+        }
     }
     Ok(())
 }
@@ -2210,6 +2238,10 @@ fn generate(s: &mut Session) {
         for _ in 0..s.budget(60, 1500) {
             let byte = *rng.choose(b"0123456789-.,:[]{}\"eEnatx ");
             s.submit(base.clone().s("kind", "flipbyte").u("pos", rng.below(len)).u("byte", byte as usize).done());
+        }
+        for k in 0..SUFFIXES.len() {
+            let out = s.submit(base.clone().s("kind", "append").u("pos", k).done());
+            s.count(&format!("fault:append:{}", out.split(':').next().unwrap_or("")));
         }
         // token-level mutations: every kind at every site
         let v: Value = serde_json::from_str(&text).unwrap();
